@@ -167,8 +167,11 @@ class Driver(object):
     stack = CountingStack()
     stack.Push(self.term, name)
     payload = thrift_payload(arg)
+    from scales.constants import ChannelState as _CS
+    unanswered = [n for n, r in self.reqs.items() if not self.responses(n) and r.get('sink') is sink]
     rec = {'name': name, 'arg': arg, 'stack': stack, 'msg': msg, 'issued': self.lp.now(), 'deadline': deadline, 'evt': None,
-           'timed_out': False, 'conn_fault_before': self._conn_faulted()}
+           'timed_out': False, 'conn_fault_before': self._conn_faulted(), 'sink': sink,
+           'open_idle_at_issue': sink.state == _CS.Open and not unanswered}
     self.reqs[name] = rec
     headers = {}
     if self.kind == 'thrift':
@@ -313,6 +316,17 @@ class Driver(object):
           if not good:
             self.v('C08.probe-failed', 'transport reported Open and idle (%s) but a fresh request got %s'
                    % (self._faults(), [self._desc(x) for x in rs] or 'no answer'), transport=self.kind)
+    # ---- a request handed to a transport that reported Open and idle, in an execution without any connection fault, is carried
+    if not self.net.fault_log and not any(c.stalled or c.reset or c.eof for c in self.net.conns) \
+       and not any(str(w).startswith('ping') for w in self.p.get('withhold', ())):
+      for name, r in sorted(self.reqs.items()):
+        rs = self.responses(name)
+        if r.get('open_idle_at_issue') and rs and not r['timed_out'] and r.get('deadline') is None:
+          t, msg, stream = rs[0]
+          err = getattr(msg, 'error', None) if msg is not None else None
+          if err is not None and type(err).__name__ != 'TimeoutError':
+            self.v('C08.probe-failed', 'no connection fault occurred and the transport reported Open and idle when request %s was handed '
+                   'to it at +%.3f, but the request was failed with %s' % (name, r['issued'] - vloop.EPOCH, self._desc(rs[0])), transport=self.kind)
     # ---- the bystander transport: nothing happened to its connection, so it must be unaffected
     if self.sinkB is not None:
       connsB = self._conns(1001)
@@ -423,6 +437,9 @@ def scripts():
   out.append(('mux, the consumer issues the next request from inside the failure callback',
               {'transport': 'mux', 'withhold': [], 'reenter': True,
                'script': [['req', 'r1'], ['req', 'r2'], ['wait', 0.3, 0.05], ['req', 'r3'], ['wait', 0.3, 0.05]]}))
+  out.append(('thrift, the consumer issues the next request from inside the callback that delivers a timeout',
+              {'transport': 'thrift', 'withhold': ['r1'], 'reenter': True,
+               'script': [['req', 'r1', 0.2025], ['wait', 0.5, 0.05], ['req', 'r2'], ['wait', 0.3, 0.05]]}))
   # two transports alive in one process; only the first one's connection is disturbed
   out.append(('mux, second transport to another endpoint stays healthy',
               {'transport': 'mux', 'withhold': [], 'bystander': True,
